@@ -1,4 +1,6 @@
 From Coq Require Import Extraction ExtrOcamlBasic.
-From Mamba Require Import Search.Model Search.ShardModel Search.ShardPreds.
+From Mamba Require Import Search.Model Search.ShardModel Search.ShardPreds Search.OrderlyInstCheckModel.
 Extraction Language OCaml.
-Extraction "model.ml" outputs init p_edges3 p_maxdeg2 p_triangle p_none.
+Extraction "model.ml" outputs init p_edges3 p_maxdeg2 p_triangle p_none
+  check_upto check_level check_graph check_perm check_orb check_ksub check_early label_check label_pair_check
+  vbs_all vbs_deg vbs_mixed all_graphs get_aut vg_of_edges.
